@@ -17,6 +17,7 @@ THEOREMS = [
     "BeyondVerif.C18.spk_antisymm",
     "BeyondVerif.C18.growth_consistent",
     "BeyondVerif.C18.growth_uniqueCenter",
+    "BeyondVerif.C18.perm_growth_consistent",
     "BeyondVerif.C18.de403_growth",
     "BeyondVerif.C18.de403_routes",
     "BeyondVerif.C18.de403_spk_chain",
@@ -43,7 +44,7 @@ THEOREMS = [
 ]
 LEVEL_TEXT = ("Lean theorems about a model of create_frames / JplPropagator.propagate / Center.convert_to / Frame.transform (routing = the Node model of C20; "
               "jplephem segment values are a parameter): for EVERY kernel in which no body is the target of two centres, all segment values deriving from one "
-              "position per body (proved to exist for every kernel grown segment by segment), every ordered pair of bodies and every fuel, the vector returned by "
+              "position per body (proved to exist for every kernel grown segment by segment, in any order of the segments: perm_growth_consistent), every ordered pair of bodies and every fuel, the vector returned by "
               "get_orbit(a).copy(frame=b) and by re-framing a zero state vector is the position/velocity of a relative to b in m, m/s, equals the signed sum of the "
               "file's segments along a chain of kernel links, and a->b = -(b->a); for the DE403 kernel of the test data (pairs regenerated from the file each run) all "
               "256 ordered pairs are routed (kernel decide) and return exactly that vector; independence of the PCK constants. Every public route and histories: a JplPropagator "
@@ -58,7 +59,7 @@ LEVEL_TEXT = ("Lean theorems about a model of create_frames / JplPropagator.prop
               "instantiated to the two steps read from the classes). The model is tied to the code by a differential correspondence on all ordered pairs of the real "
               "kernel with and without PCK files, on synthetic kernels installed in place of the file, on the two propagators, and on histories of requests driven through the real objects "
               "(get_orbit / get_propagator / Body.propagate / hand-made propagators in both directions of every segment, in-place frame, form and value changes of the answers, copies, "
-              "as_frame of the answers, Center.convert_to, repeated and interleaved dates and bodies) against the Lean state machine `run` fed with the same segment values.")
+              "as_frame of the answers incl. QSW/TNW orientations and Ephem.as_frame at the nodes, synthetic SPK type 3 segments, Center.convert_to, repeated and interleaved dates and bodies) against the Lean state machine `run` fed with the same segment values.")
 LEVEL_NOTE = ("proof (partial): the first sentence of the property - agreement of the analytical series with the JPL DE ephemeris to 0.02 deg / 1e-4 (Sun), 0.7 deg / 0.5 % (Moon) - "
               "relates a formula to the contents of a binary data file; no theorem expresses it, it is exercised by the oracle only (DE403, 2000-2020 grid). "
               "R -> double gap covered only by tolerance-bounded correspondence (1e-12 SPK, 1e-10 series). Kernels where a body is the target of two centres are "
@@ -80,7 +81,7 @@ ASSUMPTIONS = [
     "bodies are identified by NAIF code; distinct codes of the kernel have distinct title-cased names (checked by extract for the real kernel)",
     "all frames involved share the EME2000 orientation, so orientation.convert_to is the identity matrix (checked by correspondence incl. the built-in EME2000 frame)",
     "the built-in Earth centre hangs below the kernel's Earth through a zero offset (the create_frames epilogue); modelled by identifying the two",
-    "segments are of the position-only type (len(pos) == 3: velocity in km/day divided by 86400); the len(pos) == 6 branch of propagate is not modelled (no such segment in DE kernels)",
+    "the Lean model has the position-only segments (len(pos) == 3: velocity in km/day divided by 86400); the len(pos) == 6 branch of propagate (SPK type 3: km and km/s, no such segment in DE kernels) is exercised with synthetic type 3 segments, presented to the model and to the direct chaining as the equivalent km/day values (km/s x 86400): the branch is tied to the statement by correspondence and oracle (2 ulp), not by a case of its own in the model",
     "create_frames is called once per process (the harness runs each configuration in its own process)",
     "frames made with as_frame get names no kernel body has (Fresh), each name used once per process (re-using a name overwrites the class attribute <name>_to_<parent>; not modelled)",
     "in-place changes of form (orb.form = 'spherical') do not move the point an object represents: they are applied to the real objects and skipped in the model (compared at 1e-8 afterwards)",
@@ -90,11 +91,11 @@ NOT_COVERED = [
     "agreement of the analytical Sun and Moon series with the JPL DE ephemeris (0.02 deg, 1e-4; 0.7 deg, 0.5 %): formula vs binary data file - oracle only (DE403 2000-2020)",
     "a bound on the third derivative of the two series (needed to turn velocity_error_at_steps into a number): oracle only (numerical third differences)",
     "dates outside the span of the kernel (jplephem raises) and kernels with several time-sliced segments for one (center, target) pair",
-    "Ephem.as_frame (interpolated offsets) and the QSW/TNW orientations of orbit2frame (C02); jpl.get_body(name) without PCK files raises UnknownBodyError for every name (no vector is returned; the route Body.propagate is exercised through get_frame(name).center.body, and through get_body when PCK files are configured)",
+    "Ephem.as_frame away from the nodes of the Ephem (interpolation error; at a node the offset is the propagated state: covered, at 1e-8); for frames made with orientation='QSW'/'TNW' only the centre is checked (conversions of the origin FROM the new frame; the rotation itself is C02's); jpl.get_body(name) without PCK files raises UnknownBodyError for every name (no vector is returned; the route Body.propagate is exercised through get_frame(name).center.body, and through get_body when PCK files are configured)",
 ]
 OPEN = [
     "totality for arbitrary tree kernels (a path is always found): proved by decide for the DE403 kernel, otherwise inherited from C20's open forest_routes_exact",
-    "existence of consistent positions is proved for kernels grown segment by segment (each new segment hangs a new body); not for trees given in an arbitrary order of segments",
+    "existence of consistent positions is proved for every kernel that is a permutation of one grown segment by segment (perm_growth_consistent); that every forest in which each body is the target of at most one segment HAS such an ordering is not formalised",
     "smoothness and explicit third-derivative bounds of sunSeries / moonSeries are not formalised",
 ]
 RULE = ("correspondence: every ordered pair of the 16 bodies of de403_2000-2020.bsp (+ the built-in EME2000 frame) x dates across the span (both ends included) x "
@@ -160,15 +161,20 @@ _ENV = {}
 
 
 class FakeSegment:
-    """stands for a jplephem segment: position A + B (jd - 2455000) km, velocity B km/day"""
+    """stands for a jplephem segment: position A + B (jd - 2455000) km, velocity B km/day.
+    six: an SPK type 3 segment - jplephem returns six components, position in km and velocity in km/s, and their
+    derivatives (which JplPropagator.propagate ignores: the `len(pos) == 6` branch)"""
 
-    def __init__(self, center, target, A, B):
-        self.center, self.target, self.A, self.B = center, target, A, B
+    def __init__(self, center, target, A, B, six=False):
+        self.center, self.target, self.A, self.B, self.six = center, target, A, B, six
         self.start_jd, self.end_jd = 2451536.5, 2459216.5
 
     def compute_and_differentiate(self, jd):
         import numpy as np
-        return np.array(self.A) + np.array(self.B) * (jd - 2455000.0), np.array(self.B)
+        pos = np.array(self.A) + np.array(self.B) * (jd - 2455000.0)
+        if self.six:
+            return np.concatenate((pos, np.array(self.B) / 86400.0)), np.concatenate((np.array(self.B), np.zeros(3)))
+        return pos, np.array(self.B)
 
 
 class FakeSPK:
@@ -194,7 +200,7 @@ def env(pck=True, fake=None):
         config.set("env", "jpl", "files", [BSP] + (PCK_FILES if pck else []))
     else:
         config.set("env", "jpl", "files", ["synthetic.bsp"])
-        jpl.Bsp()._spk = [FakeSPK([FakeSegment(c, t, A, B) for c, t, A, B in fake])]
+        jpl.Bsp()._spk = [FakeSPK([FakeSegment(*f) for f in fake])]
     jpl.create_frames()
     pairs = list(jpl.Bsp().pairs.keys())           # (center, target) in dict order
     ids = sorted({i for p in pairs for i in p})
@@ -206,11 +212,16 @@ def env(pck=True, fake=None):
 
 
 def raw_segments(e, jd):
-    """what jplephem returns for every segment of the kernel at the TDB Julian date `jd`: km and km/day"""
+    """what jplephem returns for every segment of the kernel at the TDB Julian date `jd`: km and km/day.
+    A type 3 segment (six components: km and km/s) is presented as the equivalent km/day values, so that the model and the
+    direct chaining - which divide by 86400 - state what its velocity must come out as: km/s x 1000."""
     out = {}
     for (c, t), s in e["segs"].items():
         p, v = s.compute_and_differentiate(jd)
-        out[(c, t)] = [float(x) for x in p] + [float(x) for x in v]
+        if len(p) == 6:
+            out[(c, t)] = [float(x) for x in p[:3]] + [float(x) * 86400.0 for x in p[3:]]
+        else:
+            out[(c, t)] = [float(x) for x in p] + [float(x) for x in v]
     return out
 
 
@@ -564,8 +575,18 @@ class History:
         o = self.objs[i]
         inf = self.info[i]
         variant = variant or "plain"
-        if variant in ("QSW", "TNW") and inf["obj"] == 399:
-            variant = "plain"       # the local orbital frame of the Earth's orbit about the Earth (the default parent) does not exist
+        if variant in ("QSW", "TNW"):
+            # the local orbital frame is built from the state relative to the default parent, the Earth: it does not
+            # exist for the Earth itself nor for a body that sits on it / moves along the line to it
+            import numpy as np
+            try:
+                sv = np.asarray(o.copy(frame="EME2000", form="cartesian"), dtype=float)
+                h2 = float(np.linalg.norm(np.cross(sv[:3], sv[3:])))
+                ok = h2 > 1e-9 * float(np.linalg.norm(sv[:3]) * np.linalg.norm(sv[3:])) > 0.0
+            except Exception:  # noqa: BLE001
+                ok = False
+            if inf["obj"] == 399 or not ok or not all(np.isfinite(sv)):
+                variant = "plain"
         link = inf["frame"]
         try:
             if variant == "ephem":
@@ -1016,7 +1037,7 @@ def gen_kernel(rng, rooted):
     for c, t in edges:
         A = [rng.uniform(-1, 1) * 10 ** rng.uniform(3, 9) for _ in range(3)]
         B = [rng.uniform(-1, 1) * 10 ** rng.uniform(2, 6) for _ in range(3)]
-        fake.append([c, t, A, B])
+        fake.append([c, t, A, B, rng.random() < 0.3])       # three in ten are type 3 segments (position and velocity)
     return fake
 
 
